@@ -569,28 +569,101 @@ Proof.
   destruct (f a); simpl; [destruct (g a); simpl; congruence | exact IH].
 Qed.
 
+(* a descriptor served by a ReferrerLister (Referrers API response, referrers
+   index of the tag schema) is complete: artifactType is the manifest's effective
+   type and the annotations are the manifest's *)
+Definition desc_complete (s : source) (p : desc) : Prop :=
+  d_at p = effective_type s (d_id p) /\
+  forall k, lookup k (match d_ann p with Some m => m | None => [] end) =
+            lookup k (manifest_annots s (d_id p)).
+
+Definition served_ok (s : source) (p : desc) : Prop :=
+  desc_consistent s p /\ (s_lister s = true -> desc_complete s p).
+
+Lemma keep_ann_complete s key re p :
+  desc_complete s p -> keep_ann key re p = keep_spec s (FAnn key re) (d_id p).
+Proof.
+  intros (_ & Hn). unfold keep_ann, keep_spec. rewrite <- Hn.
+  destruct (d_ann p); reflexivity.
+Qed.
+
+Lemma filter_ext_in_map (f : desc -> bool) (g : nat -> bool) ps :
+  Forall (fun p => f p = g (d_id p)) ps ->
+  map d_id (List.filter f ps) = List.filter g (map d_id ps).
+Proof.
+  induction 1 as [|p ps Hp _ IH]; simpl; auto.
+  rewrite Hp. destruct (g (d_id p)); simpl; congruence.
+Qed.
+
+Lemma filter_Forall {A} (P : A -> Prop) f l : Forall P l -> Forall P (List.filter f l).
+Proof.
+  induction 1 as [|a l Ha _ IH]; simpl; auto. destruct (f a); auto.
+Qed.
+
+Lemma filter_true {A} (l : list A) : List.filter (fun _ => true) l = l.
+Proof. induction l; simpl; congruence. Qed.
+
+Lemma apply_lister_spec s f ps :
+  Forall (desc_complete s) ps ->
+  map d_id (apply_lister f ps) = List.filter (keep_spec s f) (map d_id ps).
+Proof.
+  intro H. destruct f as [[re|] | key re]; simpl.
+  - apply filter_ext_in_map. eapply Forall_impl; [|exact H].
+    intros p (Ha & _). now rewrite Ha.
+  - now rewrite filter_true.
+  - apply filter_ext_in_map. eapply Forall_impl; [|exact H].
+    intros p Hp. now apply keep_ann_complete.
+Qed.
+
+Lemma apply_lister_Forall (P : desc -> Prop) f ps : Forall P ps -> Forall P (apply_lister f ps).
+Proof. destruct f as [[re|] | key re]; simpl; auto using filter_Forall. Qed.
+
+Definition acc_ok (s : source) (acc : bool * list desc) : Prop :=
+  Forall (desc_consistent s) (snd acc) /\
+  (fst acc = true -> s_lister s = true -> Forall (desc_complete s) (snd acc)).
+
+Lemma step_spec s f acc :
+  acc_ok s acc ->
+  map d_id (snd (step_gen fill_at s acc f)) = List.filter (keep_spec s f) (map d_id (snd acc)) /\
+  acc_ok s (step_gen fill_at s acc f).
+Proof.
+  intros (Hc & Hl). unfold step_gen. destruct (is_noop f) eqn:En.
+  - destruct f as [[re|] | key re]; try discriminate. simpl. rewrite filter_true.
+    split; [reflexivity | split; assumption].
+  - destruct (fst acc && s_lister s)%bool eqn:Eb.
+    + apply andb_true_iff in Eb. destruct Eb as (E1 & E2). simpl. split.
+      * apply apply_lister_spec. auto.
+      * split; simpl; [apply apply_lister_Forall; exact Hc | discriminate].
+    + simpl. destruct (apply_filter_spec s f (snd acc) Hc) as (H1 & H2).
+      split; [exact H1 | split; simpl; [exact H2 | discriminate]].
+Qed.
+
 Lemma find_preds_fold s fs : forall acc,
-  Forall (desc_consistent s) acc ->
-  map d_id (fold_left (fun acc f => apply_filter_gen fill_at s f acc) fs acc) =
-  List.filter (fun id => forallb (fun f => keep_spec s f id) fs) (map d_id acc).
+  acc_ok s acc ->
+  map d_id (snd (fold_left (step_gen fill_at s) fs acc)) =
+  List.filter (fun id => forallb (fun f => keep_spec s f id) fs) (map d_id (snd acc)).
 Proof.
   induction fs as [|f fs IH]; intros acc H; simpl.
-  - induction (map d_id acc); simpl; congruence.
-  - destruct (apply_filter_spec s f acc H) as (H1 & H2).
-    change (apply_filter_gen fill_at s f acc) with (apply_filter s f acc).
+  - now rewrite filter_true.
+  - destruct (step_spec s f acc H) as (H1 & H2).
     rewrite (IH _ H2), H1. apply filter_filter.
 Qed.
 
 (* opts.FindPredecessors after any stack of filters follows exactly the
    predecessors whose manifest satisfies every filter (same order, same multiplicity) *)
 Lemma find_preds_exact s fs x :
-  Forall (desc_consistent s) (s_preds s x) ->
+  Forall (served_ok s) (s_preds s x) ->
   map d_id (find_preds s fs x) =
   List.filter (fun id => forallb (fun f => keep_spec s f id) fs) (map d_id (s_preds s x)).
-Proof. intro H. unfold find_preds, find_preds_gen. now apply find_preds_fold. Qed.
+Proof.
+  intro H. unfold find_preds, find_preds_gen.
+  apply (find_preds_fold s fs (true, s_preds s x)). split; simpl.
+  - eapply Forall_impl; [|exact H]. intros p (Hp & _). exact Hp.
+  - intros _ Hl. eapply Forall_impl; [|exact H]. intros p (_ & Hp). auto.
+Qed.
 
 Lemma find_preds_followed_iff s fs x y :
-  Forall (desc_consistent s) (s_preds s x) ->
+  Forall (served_ok s) (s_preds s x) ->
   (In y (map d_id (find_preds s fs x)) <->
    In y (map d_id (s_preds s x)) /\ forall f, In f fs -> keep_spec s f y = true).
 Proof.
@@ -608,14 +681,29 @@ Proof.
   - rewrite filter_In, in_map_iff. intros ((q & <- & Hq) & _). rewrite fill_ann_id. now apply in_map.
 Qed.
 
+Lemma apply_lister_incl f ps p : In p (apply_lister f ps) -> In p ps.
+Proof. destruct f as [[re|] | key re]; simpl; auto; rewrite filter_In; tauto. Qed.
+
+Lemma step_gen_ids fill s f acc p :
+  (forall q, d_id (fill s q) = d_id q) ->
+  In p (snd (step_gen fill s acc f)) -> In (d_id p) (map d_id (snd acc)).
+Proof.
+  intro Hid. unfold step_gen. destruct (is_noop f); [apply in_map|].
+  destruct (fst acc && s_lister s)%bool; simpl.
+  - intro H. apply in_map. eapply apply_lister_incl; eauto.
+  - now apply apply_filter_gen_ids.
+Qed.
+
 Lemma find_preds_gen_ids fill s fs x p :
   (forall q, d_id (fill s q) = d_id q) ->
   In p (find_preds_gen fill s fs x) -> In (d_id p) (map d_id (s_preds s x)).
 Proof.
-  intro Hid. unfold find_preds_gen. generalize (s_preds s x) as acc.
+  intro Hid. unfold find_preds_gen.
+  change (s_preds s x) with (snd (true, s_preds s x)) at 2.
+  generalize (true, s_preds s x) as acc.
   induction fs as [|f fs IH]; intros acc; simpl; [apply in_map|].
   intro H. apply IH in H. apply in_map_iff in H. destruct H as (q & E & Hq).
-  rewrite <- E. eapply apply_filter_gen_ids; eauto.
+  rewrite <- E. eapply step_gen_ids; eauto.
 Qed.
 
 Lemma find_preds_ids s fs x p :
@@ -633,13 +721,23 @@ Qed.
 Lemma filter_len {A} (f : A -> bool) l : length (List.filter f l) <= length l.
 Proof. induction l as [|a l IH]; simpl; [lia|]. destruct (f a); simpl; lia. Qed.
 
+Lemma step_gen_length fill s f acc :
+  length (snd (step_gen fill s acc f)) <= length (snd acc).
+Proof.
+  unfold step_gen. destruct (is_noop f); [lia|].
+  destruct (fst acc && s_lister s)%bool; simpl.
+  - destruct f as [[re|] | key re]; simpl; auto using filter_len.
+  - destruct f as [[re|] | key re]; simpl; auto;
+      (etransitivity; [apply filter_len | rewrite map_length; lia]).
+Qed.
+
 Lemma find_preds_length s fs x : length (find_preds s fs x) <= length (s_preds s x).
 Proof.
-  unfold find_preds, find_preds_gen. generalize (s_preds s x) as acc.
+  unfold find_preds, find_preds_gen.
+  change (s_preds s x) with (snd (true, s_preds s x)) at 2.
+  generalize (true, s_preds s x) as acc.
   induction fs as [|f fs IH]; intros acc; simpl; [lia|].
-  etransitivity; [apply IH|].
-  destruct f as [[re|] | key re]; simpl; auto;
-    (etransitivity; [apply filter_len | rewrite map_length; lia]).
+  etransitivity; [apply IH | apply step_gen_length].
 Qed.
 
 (* ------------------------------------------------------------------ the pinned (pre-fix) filter *)
@@ -649,18 +747,18 @@ Definition f9_source : source :=
            (fun x => match x with 1 => KImage | _ => KOther end)
            (fun x => match x with 1 => b "application/vnd.example.sbom" | _ => [] end)
            (fun x => match x with 1 => b "application/vnd.oci.empty.v1+json" | _ => [] end)
-           (fun _ => None).
+           (fun _ => None) false.
 
 Definition f9_regex : str -> bool := str_eqb (b "application/vnd.example.sbom").
 
 Lemma find_preds_prefix_refuted :
   exists s re x,
-    Forall (desc_consistent s) (s_preds s x) /\
+    Forall (served_ok s) (s_preds s x) /\
     map d_id (find_preds_prefix s [FArt (Some re)] x) <>
     List.filter (fun id => re (effective_type s id)) (map d_id (s_preds s x)).
 Proof.
   exists f9_source, f9_regex, 0. split.
-  - constructor; [|constructor]. split; simpl; auto.
+  - constructor; [|constructor]. split; [split; simpl; auto | discriminate].
   - vm_compute. discriminate.
 Qed.
 
@@ -671,7 +769,7 @@ Lemma find_preds_prefix_source_dependent :
   let s2 := mkSource (fun x => match x with
                                | 0 => [mkDesc 1 (b "application/vnd.example.sbom") None]
                                | _ => [] end)
-                     (s_kind s1) (s_mat s1) (s_mcfg s1) (s_mann s1) in
+                     (s_kind s1) (s_mat s1) (s_mcfg s1) (s_mann s1) false in
   map d_id (find_preds_prefix s1 [FArt (Some f9_regex)] 0) = [] /\
   map d_id (find_preds_prefix s2 [FArt (Some f9_regex)] 0) = [1] /\
   map d_id (find_preds s1 [FArt (Some f9_regex)] 0) = [1] /\
@@ -829,7 +927,7 @@ Definition ex_source : source :=
            (fun x => match x with 0 => KOther | 1 => KImage | 2 => KArtifact | 3 => KIndex | _ => KImage end)
            (fun x => match x with 2 => b "sbom" | 4 => b "sig" | _ => [] end)
            (fun x => match x with 1 => b "cfg" | 4 => b "empty" | _ => [] end)
-           (fun x => match x with 2 => Some [(b "k", b "w")] | 4 => Some [(b "k", b "v")] | _ => None end).
+           (fun x => match x with 2 => Some [(b "k", b "w")] | 4 => Some [(b "k", b "v")] | _ => None end) false.
 
 Definition ex_node : desc := mkDesc 0 [] None.
 
@@ -841,4 +939,4 @@ Definition diamond_source : source :=
                      | 2 => [mkDesc 1 [] None]
                      | 1 => [mkDesc 3 [] None]
                      | _ => [] end)
-           (fun _ => KIndex) (fun _ => []) (fun _ => []) (fun _ => None).
+           (fun _ => KIndex) (fun _ => []) (fun _ => []) (fun _ => None) false.
